@@ -10,6 +10,7 @@
 package vk
 
 import (
+	"bytes"
 	"encoding/binary"
 	"encoding/json"
 	"fmt"
@@ -166,6 +167,11 @@ type FileCase struct {
 	// A replay runs them first, so a failure that depends on state left behind by earlier
 	// calls (a cache, a pool, lazily initialised tables) reproduces from the file alone.
 	History []json.RawMessage `json:"history,omitempty"`
+	// First: the first failing case of the process, before shrinking (only when it differs from Case).
+	// Shrinking re-runs the property on many candidates, each of which leaves state behind in the
+	// library: a minimal case whose failure needs such state does not reproduce after History alone,
+	// the first failing case does. A replay evaluates First right after History, then Case.
+	First json.RawMessage `json:"first,omitempty"`
 }
 
 func writeAtomic(path string, data []byte) error {
@@ -400,7 +406,8 @@ type Checker[C any] struct {
 	keepSeq   int
 	ring      []C // the last historyLen cases evaluated by this process
 	ringPos   int
-	frozen    []C // history before the first failure of this process (kept for the shrunk cases too)
+	frozen    []C    // history before the first failure of this process (kept for the shrunk cases too)
+	firstFail []byte // the first failing case (encoded), before shrinking
 	frozenEnc []json.RawMessage
 	recentEnc [][]byte // encodings of the last few armed cases (written into the pending file)
 	failed    bool
@@ -532,6 +539,9 @@ func (k *Checker[C]) Eval(c C) *Failure {
 		if !k.failed {
 			k.failed = true
 			k.frozen = k.history()
+			if e := k.encode(c); len(e) <= 4<<20 {
+				k.firstFail = e
+			}
 		}
 		k.writeFail(c, f)
 	} else {
@@ -567,6 +577,9 @@ func (k *Checker[C]) writeFail(c C, f *Failure) {
 		}
 	}
 	fc.History = k.frozenEnc
+	if k.firstFail != nil && !bytes.Equal(k.firstFail, fc.Case) {
+		fc.First = k.firstFail
+	}
 	b, _ := json.Marshal(fc)
 	// last failing case wins: rapid (and the native fuzzer's minimiser) re-run
 	// the property on ever smaller cases and finish with the minimal one.
@@ -646,6 +659,25 @@ func (k *Checker[C]) Regress(t *testing.T) {
 		sort.Strings(m)
 		files = m
 	}
+	k.regressFiles(t, files)
+}
+
+// RegressLast replays the regression cases kept under <regress dir>/last/: cases with huge inputs,
+// which a check evaluates at the very end of the process (TestLast) so that the state they leave
+// behind in the library - a pooled buffer grown to 64 MiB, a cache keyed by a 256 MiB array - cannot
+// mask what the ordinary cases would have met. Not used when a single file is replayed.
+func (k *Checker[C]) RegressLast(t *testing.T) {
+	if env("VERIF_REPLAY", "") != "" {
+		return
+	}
+	if d := env("VERIF_REGRESS_DIR", ""); d != "" {
+		m, _ := filepath.Glob(filepath.Join(d, "last", "*.json"))
+		sort.Strings(m)
+		k.regressFiles(t, m)
+	}
+}
+
+func (k *Checker[C]) regressFiles(t *testing.T, files []string) {
 	for _, p := range files {
 		raw, err := os.ReadFile(p)
 		if err != nil {
@@ -672,6 +704,15 @@ func (k *Checker[C]) Regress(t *testing.T) {
 			var hc C
 			if err := json.Unmarshal(h, &hc); err == nil {
 				_ = Try("history case", func() { _ = k.Check(hc) })
+			}
+		}
+		// then the first failing case of the original process, as it was before shrinking (see FileCase.First)
+		if len(fc.First) > 0 {
+			var c1 C
+			if err := json.Unmarshal(fc.First, &c1); err == nil {
+				if f := k.Eval(c1); f != nil {
+					t.Fatalf("VERIF-FAIL property=%s kind=%s file=%s (first failing case, before shrinking): %s", k.ID, f.Kind, p, f.Msg)
+				}
 			}
 		}
 		// twice: checks that alternate between fresh and reused argument buffers (vk.Scratch) then
